@@ -424,6 +424,9 @@ class ComponentLevel2( ComponentLevel1 ):
         # Recognize overlapped slices
         if x.slice_overlap( obj ) and x in write_upblks:
           wrx_blks = list(write_upblks[x])
+          # overlapping slices written by the same update block are fine
+          if wrx_blks[0] == wr_blks[0]:
+            continue
           raise MultiWriterError( \
             "Two-writer conflict between sibling slices. \n - {} (in {})\n - {} (in {})".format(
               repr(x), wrx_blks[0].__name__,
